@@ -28,6 +28,11 @@ CLAIMED = {
   note="Trusted: the lexical model of std::path (Unix semantics: components/is_absolute/join/strip_prefix stubs in prelude/path_model.rs), vstd, rules R1,R2,R4,R8. Not decided: symlinks, walkdir/grep internals, Workspace::apply_patch's own fs calls (closures capturing &mut are rejected by Verus), 'a refused request has no side effect' beyond the resolvers being pure, checkpoint id / session id validation on rewind.",
   technique="Verus contracts over an assumed lexical path model on mechanically extracted resolver functions; closure contracts; native replay for counterexamples",
   ref="§4 C13"),
+ 'C15': dict(
+  text="Unbounded deductive proofs (Verus/Z3) on the real frame mapping and numbering code extracted from /repo on every run: EventFrameMapper::map yields exactly one provider-event frame per parsed SSE event whose payload fields (raw / data / event name / errors) are unchanged per event kind (including the terminal marker and invalid JSON), followed by at most one derived text frame carrying exactly the event's text delta; frames are numbered consecutively and the counter advances by the frame count (emit, emit_provider_event, map). OpenResponsesSsePipe::push_sse_str and ::finish: every mapped frame reaches the sink re-based to the session numbering, in order, none dropped, and the pipe's numbering invariant (mapper counter + offset == session counter) is preserved, so numbering continues without gap from the frames before it - for every sequence of parsed events. Two clauses are BOUNDED stand-ins (not proved): the SSE decoder is chunking-invariant (real SseDecoder::push/finish run natively over all streams of <= 4 lines from 9 SSE line shapes x {LF, CRLF} x {trailing blank line or not}, cut at every byte position and, for short streams, every pair of positions) and end-to-end numbering of the pipe across pushes and finish (real pipe + real mapper, scripted decoder, 3 start seqs x 7^3 scripts x {finish, terminal transport error}).",
+  note="Trusted: the mapper contract is used modularly by the pipe unit; stubbed SseDecoder/collector/sink; assumed std contracts for Option::as_deref_mut and Vec::extend (with the axiom that a Vec argument yields its elements in order); output_text_delta as an uninterpreted function of the parsed event; Event/EventKind extracted mechanically with serde attributes dropped; counters far below u64::MAX (explicit precondition); rules R1,R2,R3,R7 (for over &mut Vec rewritten as an index loop). Not decided by proof: decoder line handling and UTF-8 reassembly in push_bytes (bounded / not covered), JSON and schema validation inside parse_event, whole-run text concatenation. Note: emit_transport_error does not preserve the pipe invariant; every caller drops the pipe right after it (checked by reading the call sites, not by contract).",
+  technique="Verus contracts with loop invariants on mechanically extracted mapper and pipe; two clauses by bounded native replay, labelled bounded",
+  ref="§4 C15"),
  'C16': dict(
   text="Unbounded deductive proof (Verus/Z3) on the real 180-line run_openresponses_agent_loop extracted from /repo on every run: (1) ToolRunner::run carries the precondition permitted(tool name), so 'a tool excluded by the configured tool choice is never executed' is an obligation at both execution sites, discharged from the allows_function test; (2) tool_call_count <= DEFAULT_MAX_TOOL_CALLS is a loop invariant (bounded); (3) after the batch loop the outputs answer the drained calls one by one, by call id, in provider order, and the outer invariant plus the precondition of the follow-up builder show the very next request carries exactly those outputs; (4) in stateless mode the history a request is built from only ever grows. Holds for every provider behaviour (number/order/names of calls, errors) because the stubs are unconstrained. Partial: schema gate and collector JSON parsing are not under contract.",
   note="Trusted: ~40 stub items (provider streaming, tool runner, collector, request builders) with the assumed facts `allows_function == permitted`, `drain_function_calls` returns one provider batch in provider order, `function_call_output_item` answers the given call id; assumed std contracts for Result::unwrap_or_else, Vec::extend, Option::as_deref; rules R3 (async dropped), R4, R9. Not decided: that a request failing schema validation is never sent (stream_openresponses_request), 'executed at most once' across retries inside ToolRunner, sort stability in drain_function_calls.",
